@@ -1,6 +1,6 @@
 """C02 / C06 / C10 contracts (run-time checked; proofs are added function by function)."""
 from pyvc.sorts import BOOL, INT, STR, ListSort, SetSort, OPAQUE, DictSort, MapSort
-from specs.xsm import Node, Trans, Ev, Guard
+from specs.xsm import Node, Trans, Ev, Guard, Callable_
 
 BI = "xstate_statemachine.base_interpreter:BaseInterpreter."
 A = "self._active_state_nodes"
@@ -9,17 +9,34 @@ A = "self._active_state_nodes"
 def register(w):
     register_guards(w)
 
+    # a transition may be nominated only if its guard - when it can be decided at all - is true (C06: guards gate transitions)
+    w.macro("passes_ok", ["t", "e", "A_", "c_"], "t.guard_def == None or gmiss(t.guard_def) or gval(t.guard_def, e, A_, c_)")
+    # the per-pass guard memo only ever holds faithful verdicts
+    w.macro("cache_ok", ["m", "e", "A_", "c_"], "forall[Trans](lambda t: implies(t != None and id(t) in m and m[id(t)], passes_ok(t, e, A_, c_)))")
+    CTX = f"{A}, self.context"
+
     @w.contract(BI + "_collect_eligible_transitions", props=["C02", "C06"])
     def _(c):
-        c.trusted = ("assumed here (bounded: the run-time twin clause of _select_transitions and bounded.c02/c06): every returned transition is "
-                     "declared on the state or one of its ancestors, deepest source first (the walk goes upward); guards are evaluated through "
-                     "_is_guard_satisfied only (A-user: no interpreter state is written)")
         c.no_runtime = True
+        # modelled for the memoising call of _select_transitions (guard_cache is a dict); the guard_cache=None spelling is not modelled
         c.param("state", Node).param("event", Ev).param("guard_cache", DictSort(INT, BOOL)).returns(ListSort(Trans))
-        c.req("state != None and event != None")
-        c.ens("forall[int](lambda i: implies(0 <= i and i < len(result), result[i] != None and result[i].source != None and anc(state, result[i].source)))")
-        c.ens("forall[int, int](lambda i, j: implies(0 <= i and i < j and j < len(result), result[i].source.depth >= result[j].source.depth))")
+        c.mutates_param("guard_cache")
+        c.req("state != None and event != None", f"cache_ok(guard_cache, event, {CTX})")
+        c.ens("forall[int](lambda i: implies(0 <= i and i < len(result), result[i] != None and result[i].source != None and anc(state, result[i].source)))",
+              label="candidates-are-declared-on-the-state-or-an-ancestor")
+        c.ens("forall[int, int](lambda i, j: implies(0 <= i and i < j and j < len(result), result[i].source.depth >= result[j].source.depth))",
+              label="deepest-source-first")
+        c.ens(f"forall[int](lambda i: implies(0 <= i and i < len(result), passes_ok(result[i], event, {CTX})))", label="every-candidate-passed-its-guard")
+        c.ens(f"cache_ok(final_guard_cache, event, {CTX})", label="guard-memo-stays-faithful")
         c.may_raise("ImplementationMissingError")
+        EL = "eligible"
+        IA = (f"forall[int](lambda i: implies(0 <= i and i < len({EL}), {EL}[i] != None and {EL}[i].source != None and anc(state, {EL}[i].source) "
+              f"and (current == None or {EL}[i].source.depth >= current.depth) and passes_ok({EL}[i], event, {CTX})))")
+        IB = f"forall[int, int](lambda i, j: implies(0 <= i and i < j and j < len({EL}), {EL}[i].source.depth >= {EL}[j].source.depth))"
+        IC = f"cache_ok(guard_cache, event, {CTX})"
+        c.loop(0, inv=["current == None or anc(state, current)", IA, IB, IC], decreases="ite(current != None, current.depth + 1, 0)")
+        for k in range(1, 8):
+            c.loop(k, inv=["current != None and anc(state, current)", IA, IB, IC])
 
     @w.contract(BI + "_select_transitions", props=["C02", "C16"])
     def _(c):
@@ -81,9 +98,43 @@ def register_guards(w):
     from specs.xsm import Ev, Guard
     BI = "xstate_statemachine.base_interpreter:BaseInterpreter."
 
+    @w.contract(BI + "_resolve_params", props=["C06"])
+    def _(c):
+        c.trusted = "assumed: resolves literal / callable params (a params callable that raises propagates); effect-free (A-user); bounded.c06"
+        c.no_runtime = True
+        c.param("params", OPAQUE).param("event", Ev).returns(OPAQUE)
+        c.ens("not praises(params, event, self.context)")
+        c.may_raise("UserExc", when="praises(params, event, self.context)")
+
+    @w.contract(BI + "_call_with_optional_params", props=["C06"])
+    def _(c):
+        c.trusted = ("assumed (A-guard-pure): calls the user predicate with or without params by signature inspection; its outcome is "
+                     "ucall_truth / ucall_raises of (predicate, event, context); effect-free (A-user)")
+        c.no_runtime = True
+        c.param("fn", Callable_).param("context", OPAQUE).param("event", Ev).param("params", OPAQUE).returns(BOOL)
+        c.ens("not ucall_raises(fn, event, context) and result == ucall_truth(fn, event, context)")
+        c.may_raise("UserExc", when="ucall_raises(fn, event, context)")
+
+    @w.contract(BI + "_is_state_in", props=["C06"])
+    def _(c):
+        c.trusted = "assumed: the built-in stateIn test = stin(guard, event, configuration) (string matching over dynamic params; bounded.c06 checks it against the statement)"
+        c.no_runtime = True
+        c.param("guard", Guard).param("event", Ev).returns(BOOL)
+        c.ens(f"result == stin(guard, event, {A})")
+
     @w.contract(BI + "_is_guard_satisfied", props=["C06", "C02"])
     def _(c):
-        c.bounded_only = True
         c.param("guard", Guard).param("event", Ev).returns(BOOL)
-        c.ens("result == spec_guard_value(self, guard, event)", label="guard-value-as-stated")
-        c.may_raise("ImplementationMissingError", when="spec_guard_value(self, guard, event) == 'missing'")
+        c.req("event != None")
+        c.ens("result == spec_guard_value(self, guard, event)", label="rt:guard-value-as-stated")
+        c.ens("implies(guard == None, result)", label="no-guard-means-enabled")
+        # and / or / not with ordinary boolean meaning at any depth; a predicate that raises counts as false (inside gval)
+        c.ens(f"implies(guard != None and not gmiss(guard), result == gval(guard, event, {A}, self.context))", label="ghost:value-is-the-boolean-meaning-of-the-expression")
+        # a named predicate that is not implemented is reported, never decided either way
+        c.ens("implies(guard != None and not guard.is_composite, not gmiss(guard))", label="ghost:a-missing-predicate-is-never-decided")
+        c.may_raise("ImplementationMissingError", when="ghost:guard != None and gmiss(guard)")
+        c.decreases = "ite(guard != None, gsize(guard) + 1, 0)"
+        G = f"gval(guard.children[j], event, {A}, self.context)"
+        c.loop(0, inv=[f"forall[int](lambda j: implies(0 <= j and j < _i and not gmiss(guard), {G}))"])
+        c.loop(1, inv=[f"forall[int](lambda j: implies(0 <= j and j < _i and not gmiss(guard), not {G}))"])
+        c.loop(2, inv=[])
